@@ -1,6 +1,6 @@
 INIT Init
 NEXT Next
-CONSTANTS Grid = 5
+CONSTANTS Grid = 4
           MaxEx = 4
           MaxReq = 3
 INVARIANT SpecSane
